@@ -78,6 +78,10 @@ FAMILIES = {
                            {"c": (0.6, 4), "loc": (0, 2), "scale": (0.5, 5)},
                            lambda p: (p["c"], p["loc"], p["scale"]),
                            {"c": "fc", "loc": "floc", "scale": "fscale"}, subclass="weibull_min"),
+    "ScipyVonMises": Fam("ScipyVonMises", "vonmises", ["kappa", "loc", "scale"],
+                         {"kappa": (0.3, 5), "loc": (-4.0, 7.0), "scale": (0.5, 2.0)},
+                         lambda p: (p["kappa"], p["loc"], p["scale"]),
+                         {"kappa": "fkappa", "loc": "floc", "scale": "fscale"}, subclass="vonmises"),
     "ScipyGamma": Fam("ScipyGamma", "gamma", ["a", "loc", "scale"],
                       {"a": (0.6, 5), "loc": (0, 2), "scale": (0.5, 5)},
                       lambda p: (p["a"], p["loc"], p["scale"]),
